@@ -182,14 +182,24 @@ impl PoolInner {
         worker_handles.extend(new_handles);
     }
 
+    /// Whether the pool has begun shutting down.
+    ///
+    /// The sequentially consistent fence pairs with the one in `join_all_workers()`: a spawner
+    /// that queued a task and then observes `false` here is guaranteed that the final queue
+    /// sweep of `join_all_workers()` observes the processor state the task was queued on.
+    pub(crate) fn is_shutting_down(&self) -> bool {
+        atomic::fence(Ordering::SeqCst);
+        self.shutdown.load(Ordering::SeqCst)
+    }
+
     #[cfg_attr(test, mutants::skip)] // Removing this causes timeouts; requires timing logic to verify.
     pub(crate) fn join_all_workers(&self) {
         // Signal shutdown to prevent new workers from being spawned.
         // We use Release to ensure this store is visible to ensure_workers_spawned
         // when it acquires the lock.
-        self.shutdown.store(true, Ordering::Release);
+        self.shutdown.store(true, Ordering::SeqCst);
 
-        // Pairs with the fence in ensure_workers_spawned().
+        // Pairs with the fences in ensure_workers_spawned() and is_shutting_down().
         atomic::fence(Ordering::SeqCst);
 
         #[cfg(folo_verif)]
@@ -226,6 +236,12 @@ impl PoolInner {
                 panic::resume_unwind(payload);
             }
         }
+
+        // No worker is left to run what is still queued. Drop those tasks so that their join
+        // handles resolve as abandoned even while `Scheduler` clones keep the queues alive.
+        // A task queued after this sweep is dropped by its spawner (see `is_shutting_down()`).
+        atomic::fence(Ordering::SeqCst);
+        self.registry.abandon_all_queued_tasks();
     }
 }
 
